@@ -3,8 +3,16 @@ package middleware
 import (
 	"log/slog"
 	"net/http"
+	"net/url"
 	"reservoir/webserver/dashboard/csp"
+	"strings"
 )
+
+// Reports whether the Origin header value names the given host (authority).
+func originIsHost(origin string, host string) bool {
+	u, err := url.Parse(origin)
+	return err == nil && u.Host != "" && strings.EqualFold(u.Host, host)
+}
 
 func Harden(next http.Handler) http.Handler {
 	return http.HandlerFunc(func(w http.ResponseWriter, r *http.Request) {
@@ -21,8 +29,16 @@ func Harden(next http.Handler) http.Handler {
 		site := r.Header.Get("Sec-Fetch-Site")
 		origin := r.Header.Get("Origin")
 
-		isSame := origin == "" || (site == "" || site == "same-origin" || site == "same-site")
-		allowed := isSame
+		// A request is same-site if the browser says so. Without Fetch Metadata (old browsers, pages on a
+		// non-secure origin) the Origin decides: none at all (not a cross-origin browser request), or the host
+		// that was addressed. Everything else — "cross-site", or an Origin naming another host — is refused.
+		allowed := false
+		switch site {
+		case "same-origin", "same-site", "none":
+			allowed = true
+		case "":
+			allowed = origin == "" || originIsHost(origin, r.Host)
+		}
 
 		if !allowed {
 			slog.Warn("Cross-site request blocked", "method", r.Method, "path", r.URL.Path, "remote", r.RemoteAddr, "origin", origin, "site", site)
